@@ -398,9 +398,9 @@ CALLED_ONCE = "ct_len() == 1 and ct_is(0, 'Log.log', self)"
 NOT_CALLED = "ct_len() == 0"
 
 
-contract(FL, "Log.never", "C22", params=P, assumes=MODEL, modifies=[], ensures=[NOTHING], local_ensures=[NOT_CALLED])
-contract(FL, "Log.always", "C22", params=P, assumes=MODEL, modifies=LOG_MOD, ensures=[ONE_RECORD], local_ensures=[CALLED_ONCE])
-contract(FL, "Log.once", "C22", params=P, assumes=MODEL, modifies=LOG_MOD,
+contract(FL, "Log.never", "C22", params=P, modifies=[], ensures=[NOTHING], local_ensures=[NOT_CALLED])
+contract(FL, "Log.always", "C22", params=P, modifies=LOG_MOD, ensures=[ONE_RECORD], local_ensures=[CALLED_ONCE])
+contract(FL, "Log.once", "C22", params=P, modifies=LOG_MOD,
          ensures=["implies(old(self.stamp) is None, %s)" % ONE_RECORD,
                   "implies(old(self.stamp) is not None, %s)" % NOTHING],
          local_ensures=["implies(old(self.stamp) is None, %s)" % CALLED_ONCE,
@@ -439,7 +439,7 @@ QUAL = "(loggee_at(self, {k}).stamp is not None and loggee_at(self, {k}).stamp >
 SOME_QUAL = named("some_loggee_newer",
                   "exists(lambda k: 0 <= k and k < nloggees(self) and %s)" % QUAL.format(k="k"),
                   lambda log: any(sh.stamp is not None and sh.stamp > log.stamp for sh in log.loggees.values()))
-contract(FL, "Log.update", "C22", params=P, assumes=MODEL, modifies=LOG_MOD,
+contract(FL, "Log.update", "C22", params=P, modifies=LOG_MOD,
          loops={0: dict(inv=["forall(lambda k: implies(0 <= k and k < _i, not %s))" % QUAL.format(k="k"),
                              NOT_CALLED])},
          ensures=["implies(old(self.stamp) is None, %s)" % ONE_RECORD,
@@ -614,12 +614,22 @@ def _one_loggee_one_field(E):
     E.wr_field(fo, "_keys", E.new_list(NAME, 1, [E.fresh("inst_fields", z3.ArraySort(z3.IntSort(), NS))]))
 
 
+# [v0] the SUMMARY the rule methods see (quantifier free, so that a wrong rule decision is refuted with a model):
+# the stamp moves, one write call, one record (or nothing on a closed file)
+contract(FL, "Log.log", "C22", params=P, modifies=LOG_MOD, externals=EXT,
+         assumes=MODEL + PREP_FORMATS + SINGLE_FMT, may_raise_at_call=False,
+         loops={0: dict(inv=["cf.nnl == 0"]), 1: dict(inv=["cf.nnl == 0"])},
+         raises={"TypeError": ["self.stamp == self.store.stamp", FILE_SAME]},
+         ensures=[ONE_RECORD], local_ensures=["ct_len() == 1 and ct_is(0, 'file.write', self.file)"],
+         note="summary used at the call sites in never / once / always / update / change; the record's content is "
+              "Log.log[v1], the TypeError outcome contradicts the statement and is reported through Log.log[v2]")
+# [v1] the record in full
 contract(FL, "Log.log", "C22", params=P, modifies=LOG_MOD, externals=EXT,
          assumes=MODEL + PREP_FORMATS + SINGLE_FMT, may_raise_at_call=False,
          raises={"TypeError": ["some_multi(self)", "self.stamp == self.store.stamp", FILE_SAME]},
          note="the TypeError outcome is what the CODE does (exactly when a logged field holds a tuple whose length "
               "is not 1: the fallback `'\\t%s' % value` raises again) - it contradicts the statement and is reported "
-              "through the instance contract Log.log[v1]; callers are verified against the normal outcome only",
+              "through the instance contract Log.log[v2]; callers are verified against the normal outcome only",
          loops={0: dict(index_name="ti", inv=["len(cf.cells) == 1 + ps(self, ti)"] + LOG_INV),
                 1: dict(inv=["len(cf.cells) == 1 + ps(self, ti) + _i", "0 <= ti and ti < nloggees(self)",
                              "tag == tag_at(self, ti) and loggee is loggee_at(self, ti)",
@@ -921,7 +931,7 @@ CHANGE_V1 = contract(
 
 # INSTANCES of the statement on the smallest shapes that show a disagreement (concrete loop bounds, so a refuted clause
 # comes with a counter-model that is replayed natively).  Statement: a logger run writes its record - for ANY values
-LOG_V1 = contract(FL, "Log.log", "C22", params=P, modifies=LOG_MOD, externals=EXT, setup=_one_loggee_one_field,
+LOG_V2 = contract(FL, "Log.log", "C22", params=P, modifies=LOG_MOD, externals=EXT, setup=_one_loggee_one_field,
                   assumes=MODEL + PREP_FORMATS + SINGLE_FMT, ensures=[ONE_RECORD],
                   note="instance: one loggee, one prepared field; no exception is declared (the statement promises a "
                        "record for any history of share writes)")
@@ -1819,6 +1829,8 @@ def _n_history_check(nr, events):
         log.loggees["h%d" % k] = sh
         log.fields["h%d" % k] = []
     log.prepare()
+    # header (bounded native evidence only, see the level note): a new file gets exactly one header, before any record
+    assert log.file.texts == [log.header] and log.header.count("\n") == 2, "prepare() did not write one header"
     dirty = [False, False]
     now = 0.0
     counter = 0
@@ -1848,6 +1860,8 @@ def _n_history_check(nr, events):
             if wrote:
                 assert log.stamp == store.stamp
                 dirty = [False, False]
+                log.prepare()              # preparing again once a record exists (logger restart) adds no header
+                assert log.file.texts.count(log.header) == 1 and log.file.texts[0] == log.header
         # invariant of the lemmas
         for k in range(2):
             st = shares[k].stamp
@@ -2046,7 +2060,8 @@ def _attach_native():
     table = {
         (L + "never", 0): _mk_rule("NEVER"), (L + "once", 0): _mk_rule("ONCE"), (L + "always", 0): _mk_rule("ALWAYS"),
         (L + "update", 0): _mk_update,
-        (L + "log", 0): _mk_rule("ALWAYS", multi=True, vanish=True), (L + "log", 1): _mk_rule("ALWAYS", multi=True, nlog=1),
+        (L + "log", 0): _mk_rule("ALWAYS", multi=True, vanish=True), (L + "log", 1): _mk_rule("ALWAYS", multi=True, vanish=True),
+        (L + "log", 2): _mk_rule("ALWAYS", multi=True, nlog=1),
         (L + "change", 0): _mk_change(True), (L + "change", 1): _mk_change_instance,
         (L + "logStreak", 0): _mk_streak(True), (L + "logStreak", 1): _mk_streak(False),
         (L + "streak", 0): _mk_streak(True),
